@@ -554,3 +554,7 @@ def check(run, replay=None):
     run.require_counter("big_tables", 1)
     run.require_counter("save_load_roundtrips", 10)
     run.require_counter("graph_file_writes", 10)
+
+
+# workloads added in seeding rounds 7-10 (DESIGN.md sections 13.9-13.12)
+LEVEL_TEXT = LEVEL_TEXT + ' Later additions: pk2d with omega and dty of different dtypes.'
